@@ -8,6 +8,32 @@ schema of the same name). Search: decode = value, eight re-encodings, every trun
 """
 
 
+def judge_all(ctx, res, hint):
+    """ctx.judge reports a model/implementation disagreement only when no property-oracle failure exists (and a known
+    finding counts as one): report the disagreement in every case."""
+    ctx.judge(res, theorem_hint=hint)
+    if res.get("mismatches") and res.get("viol"):
+        m = res["mismatches"][0]
+        ctx.violate("correspondence:%s" % res["stream"],
+                    "model and implementation disagree on stream %s (%d cases), first at case %s op `%s`: go=%s model=%s"
+                    % (res["stream"], len(res["mismatches"]), m["case"], m["op"][:200], m["go"][:200], m["model"][:200]),
+                    {"kind": "correspondence", "stream": res["stream"], "first": m, "count": len(res["mismatches"]),
+                     "theorems_no_longer_tied": hint, "harness_cmd": res.get("harness_cmd"), "driver_cmd": res.get("driver_cmd")},
+                    found_input=False)
+
+
+def judge_lean_all(ctx):
+    """ctx.judge_lean stays silent when any violation with an input exists (known findings included): a failed proof
+    obligation is reported in every case."""
+    if not ctx.lean_ok:
+        ctx.violate("obligation:" + ",".join(ctx.failed_theorems)[:200],
+                    "proof obligation no longer checks: %s" % ", ".join(ctx.failed_theorems)[:500],
+                    {"kind": "obligation", "theorems": ctx.failed_theorems, "lean_errors": ctx.cov.get("lean_errors", [])},
+                    found_input=False)
+    ctx.judge_lean()
+
+
+
 def generate(ctx):
     """(T) codec inventory regenerated from the anchored Go files: every type with a codec pair must have a schema."""
     return ctx.run_extract("codecinv", [], out_lean="CodecInventory.lean")
@@ -29,8 +55,8 @@ def run(ctx):
     drv = ctx.build_driver("drv_codec")
     if hbin:
         res = ctx.correspondence("records", hbin, ["records"], drv, ["records"])
-        ctx.judge(res, theorem_hint="Poly.Props.C04.* (a record schema of Poly/Model/SchemaRecords.lean no longer matches its Go type)")
+        judge_all(ctx, res, "Poly.Props.C04.* (a record schema of Poly/Model/SchemaRecords.lean no longer matches its Go type)")
         import json, os
         st = os.path.join(ctx.tmpdir, "records.stats")
         ctx.cov["types_covered"] = 50
-    ctx.judge_lean()
+    judge_lean_all(ctx)
